@@ -35,7 +35,7 @@ package service
 //@   callspec BuildSchemeData params s0 m0
 //@       ensures result != nil && fresh(result) && result.SchemeName == s0.SchemeName
 //@       modifies nothing
-//@   at fieldstore RequirementData.Schemes assert* all.schemes.of.the.requirement: forall j int :: 0 <= j && j < len(ranged(3)) ==> (exists k int :: 0 <= k && k < len(value) && value[k].SchemeName == ranged(3)[j].SchemeName)
+//@   at fieldstore RequirementData.Schemes assert* all.schemes.of.the.requirement: forall j int :: 0 <= j && j < len(req.Schemes) ==> (exists k int :: 0 <= k && k < len(value) && value[k].SchemeName == req.Schemes[j].SchemeName)
 //@   at fieldstore RequirementData.Scopes assert* own.scopes: value == req.Scopes
 //@   loop 3 invariant covered: (rs.arr == 0 || rs.arr != schemes.arr) && ranged(3) == req.Schemes && (forall j int :: 0 <= j && j <= rangeidx(3) ==> (exists k int :: 0 <= k && k < len(rs) && rs[k].SchemeName == ranged(3)[j].SchemeName))
 //@   loop 2 modifies elems(*SchemeData)
